@@ -25,11 +25,11 @@ UNIT_TIMEOUT = {"quick": 200, "thorough": 2400}
 def make_body(rnd, allow_nested=True):
     n = rnd.choice([0, 1, 2, 3, 4, 5, 6, 8, 10, 12])
     ops = []
-    v = 0
+    v = -1
     for _ in range(n):
         r = rnd.random()
         if r < 0.45:
-            v += 1
+            v += 1  # the first Value is 0: falsy values must be delivered like any other
             ops.append(["value", v, rnd.random() < 0.3])
         elif r < 0.9 or not allow_nested:
             shape = rnd.choice(["one", "one", "list", "tuple"])
